@@ -169,8 +169,8 @@ spec("C08", "Fixed point after one pass",
      not_decided="byte identity of the 2nd and 3rd emission in general (quote guards, indentation, wrapping are value-level)")
 
 spec("C09", "sync makes targets agree",
-     [C.rule_call_direct, C.rule_call_dispatch, C2.rule_cli2, V.rule_visit1, F.rule_target_cover, F.rule_file5, F.rule_file2b, F.rule_file2c, F.rule_file2d, V.rule_visit4, M.rule_modf2_conform, det3("sync", "conformance.ground_truth"), pit("sync", "conformance.ground_truth")],
-     "Necessary conditions: (REJOIN-COVER) the function that re-joins the wrapped lines of a description is applied to an entry under no test of the entry's default or type - an entry without a default is wrapped all the same; (CALL) every call through the sync dispatch table binds to its callee's signature for every table row and branch (create / append / replace), "
+     [CT.rule_cmp_parsed, C.rule_call_direct, C.rule_call_dispatch, C2.rule_cli2, V.rule_visit1, F.rule_target_cover, F.rule_file5, F.rule_file2b, F.rule_file2c, F.rule_file2d, V.rule_visit4, M.rule_modf2_conform, det3("sync", "conformance.ground_truth"), pit("sync", "conformance.ground_truth")],
+     "Necessary conditions: (CMP-PARSED) the test 'this target already is what would be written' compares a node read from source with the emitted node only after the emitted node was read back through a parse - or every node construction the emitters reach supplies every non-optional field of the running interpreter's grammar (a parsed ClassDef has `type_params` on 3.12): otherwise the two never compare equal and every run rewrites and reports the target; (REJOIN-COVER) the function that re-joins the wrapped lines of a description is applied to an entry under no test of the entry's default or type - an entry without a default is wrapped all the same; (CALL) every call through the sync dispatch table binds to its callee's signature for every table row and branch (create / append / replace), "
      "on top of 290+ directly resolved calls; (TARGET-COVER) the per-file worker is mapped over the whole list of files the caller gave for a kind - not a slice, an index, a filtered or shortened copy - and stands under no condition on the file other than the comparison with the truth file; (CLI-2) no accepted combination of the three kinds dereferences an option that was not given (192 abstract states); (VISIT-1) "
      "every visit_<T> override of the replacer replaces under the location predicate or delegates; (FILE-5) an appended definition starts on a new line; (FILE-2c) an "
      "existing, found definition is left unwritten only when its tree equals the replacement; (FILE-2b incl. ZIP-EQ) an existing file is rewritten only under an AST inequality test whose element-wise comparison also compares lengths; (MOD-F2) each target receives a freshly built replacement node. (DET-3, scoped) no function on this property's code path writes state that outlives the call (module globals/objects, function or class attributes, mutated mutable defaults, memoised mutable results): the conversion is not history-dependent. (LATE-BIND / STALE-CAPTURE / SHARED-DEFAULT / STR-MEMBER, scoped) on this property's code path no closure created per iteration reads its loop variable late, no partial / lambda default captures a name that is rebound before the call, no mutable default is mutated, returned or stored, and no membership test is made against an identifier-like string (a tuple that lost its comma). (FILE-2d) the existence test that decides between creating and editing a target looks at the same canonical form of the path that is written; (VISIT-4) locations are built inductively (the three recorded findings also fail C09).",
@@ -179,8 +179,8 @@ spec("C09", "sync makes targets agree",
      not_decided="that the parsed targets equal the truth IR (values); method target absent from the file (a bare function is appended)")
 
 spec("C10", "sync idempotent / truth untouched / truthful report",
-     [F.rule_file0, F.rule_file1_truth, F.rule_file1b, F.rule_file2, F.rule_file2b, C.rule_call_dispatch, F.rule_file2d, F.rule_file5, det3("sync", "conformance.ground_truth"), pit("sync", "conformance.ground_truth")],
-     "Necessary conditions: (FILE-1) every call from the sync worker that can reach a write sink is guarded by a comparison of the target filename with the truth file; (FILE-1b) both sides of that comparison are canonicalised by the same path functions; (CALL-SIB) the create / append / replace branches emit with the same option flags; "
+     [CT.rule_cmp_parsed, F.rule_file0, F.rule_file1_truth, F.rule_file1b, F.rule_file2, F.rule_file2b, C.rule_call_dispatch, F.rule_file2d, F.rule_file5, det3("sync", "conformance.ground_truth"), pit("sync", "conformance.ground_truth")],
+     "Necessary conditions: (CMP-PARSED) the test 'this target already is what would be written' compares a node read from source with the emitted node only after the emitted node was read back through a parse - or every node construction the emitters reach supplies every non-optional field of the running interpreter's grammar (a parsed ClassDef has `type_params` on 3.12): otherwise the two never compare equal and every run rewrites and reports the target; (FILE-1) every call from the sync worker that can reach a write sink is guarded by a comparison of the target filename with the truth file; (FILE-1b) both sides of that comparison are canonicalised by the same path functions; (CALL-SIB) the create / append / replace branches emit with the same option flags; "
      "(FILE-2) on every enumerated path of _conform_filename the returned and printed changed-flag is true iff a write lies on the path; (FILE-2b) the in-place rewrite is "
      "control-dependent on an AST-inequality test. (FILE-5) a definition appended to an existing file starts on a new line after every other transformation of the text (otherwise it is glued to the last line, is not found by the next run, and is appended again). (DET-3, scoped) no function on this property's code path writes state that outlives the call (module globals/objects, function or class attributes, mutated mutable defaults, memoised mutable results): the conversion is not history-dependent. (LATE-BIND / STALE-CAPTURE / SHARED-DEFAULT / STR-MEMBER, scoped) on this property's code path no closure created per iteration reads its loop variable late, no partial / lambda default captures a name that is rebound before the call, no mutable default is mutated, returned or stored, and no membership test is made against an identifier-like string (a tuple that lost its comma). (FILE-2d) as under C09.",
      floors={"FILE-1": 1, "FILE-2": 4, "FILE-2b": 1},
